@@ -3,6 +3,7 @@ package drivers
 import (
 	"encoding/json"
 	"fmt"
+	"net/http"
 	"os"
 	"os/exec"
 	"path/filepath"
@@ -33,6 +34,8 @@ type c12Cast struct {
 
 var c12Serials = []int64{101, 105, 106, 102, 107, 109}
 
+const c12BigBase, c12BigExtra = int64(200000), 1097
+
 func newC12Cast() *c12Cast {
 	p := world.Std()
 	c := &c12Cast{p: p, v: map[string][]byte{}, lists: map[string][]int64{}}
@@ -46,6 +49,13 @@ func newC12Cast() *c12Cast {
 		n := int64(k[1] - '0')
 		c.v[k] = world.SimpleCRL(p.CA, n, l...).DER()
 	}
+	// a list of 1100 entries: v1's three and 1097 more (whatever an implementation does in portions of a round number
+	// of records happens more than once)
+	c.lists["vbig"] = append([]int64{}, c.lists["v1"]...)
+	for i := 0; i < c12BigExtra; i++ {
+		c.lists["vbig"] = append(c.lists["vbig"], c12BigBase+int64(i))
+	}
+	c.v["vbig"] = world.SimpleCRL(p.CA, 1, c.lists["vbig"]...).DER()
 	bad := world.SimpleCRL(p.CA, 2, c.lists["v2"]...)
 	bad.BadSig = true
 	c.v["v2bad"] = bad.DER()
@@ -69,13 +79,15 @@ func (c *c12Cast) vector(list string) string {
 
 // histories: steps are "serve:<doc>", "hs" (handshake = first use / lookup), "refresh", "down"
 var c12Histories = map[string][]string{
-	"first-load-accepted":   {"serve:v1", "hs"},
-	"first-load-rejected":   {"serve:v2bad", "hs"},
-	"first-load-truncated":  {"serve:v2trunc", "hs"},
-	"refresh-accepted":      {"serve:v1", "hs", "serve:v2", "refresh"},
-	"refresh-rejected":      {"serve:v1", "hs", "serve:v2bad", "refresh"},
-	"refresh-fetch-failure": {"serve:v1", "hs", "down", "refresh"},
-	"two-refreshes":         {"serve:v1", "hs", "serve:v2", "refresh", "serve:v3", "refresh"},
+	"first-load-accepted": {"serve:v1", "hs"},
+	// the same with a list of 1100 entries; after the restart every single entry is asked for
+	"first-load-accepted-1100-entries": {"serve:vbig", "hs"},
+	"first-load-rejected":              {"serve:v2bad", "hs"},
+	"first-load-truncated":             {"serve:v2trunc", "hs"},
+	"refresh-accepted":                 {"serve:v1", "hs", "serve:v2", "refresh"},
+	"refresh-rejected":                 {"serve:v1", "hs", "serve:v2bad", "refresh"},
+	"refresh-fetch-failure":            {"serve:v1", "hs", "down", "refresh"},
+	"two-refreshes":                    {"serve:v1", "hs", "serve:v2", "refresh", "serve:v3", "refresh"},
 	// a rejected refresh followed by an accepted one
 	"refresh-rejected-then-accepted": {"serve:v1", "hs", "serve:v2bad", "refresh", "serve:v3", "refresh"},
 	// a second distribution point is loaded and refreshed next to the first one
@@ -88,6 +100,8 @@ func c12Allowed(hist string) []string {
 	switch hist {
 	case "first-load-accepted":
 		return []string{"v1"}
+	case "first-load-accepted-1100-entries":
+		return []string{"vbig"}
 	case "first-load-rejected", "first-load-truncated":
 		return nil
 	case "refresh-accepted":
@@ -157,13 +171,18 @@ type c12Restart struct {
 	Panic        string   `json:"panic"`
 	// StartupEffects is the number of effect points Provision went through (the crash points of a crash during recovery)
 	StartupEffects int `json:"startup_effects"`
+	// BigRevoked: how many of the 1097 further serials of the 1100-entry list are answered "revoked" (asked only where the location counts as loaded)
+	BigRevoked int `json:"big_revoked"`
+	// Busy: the work_dir was provisioned while the other instance of the process was in the middle of a CRL update
+	Busy bool `json:"busy"`
 }
 
 // c12RestartChild: fresh validator over the crashed work_dir, origin down, strict on.
 // With dieAt > 0 the restarting process itself dies at its dieAt-th effect point during Provision (crash during recovery).
-func c12RestartChild(dir string, dieAt int) int {
+func c12RestartChild(dir string, dieAt int, busy bool) int {
 	c := newC12Cast()
 	var r c12Restart
+	r.Busy = busy
 	r.IDsBefore, _, _ = ListDir(dir)
 	count := 0
 	res := seqWorld(func() {
@@ -177,7 +196,7 @@ func c12RestartChild(dir string, dieAt int) int {
 		}
 		// the restarted process hosts another validator instance (own, empty work_dir) which is provisioned first:
 		// startup cleaning is per work_dir, not once per process
-		other := NewCW(CWOpt{Disk: true, SigMode: config.SignatureValidationModeVerify})
+		other := NewCW(CWOpt{Disk: true, SigMode: config.SignatureValidationModeVerify, Background: busy})
 		defer os.RemoveAll(other.Dir)
 		if err := other.Provision(); err != nil {
 			vsched.EffectHook = nil
@@ -189,9 +208,35 @@ func c12RestartChild(dir string, dieAt int) int {
 		w := NewCW(CWOpt{Disk: true, SigMode: config.SignatureValidationModeVerify, Strict: true, Dir: dir, Net: other.Net})
 		w.Net.Down(urlA)
 		w.Net.Down(urlB)
-		if err := w.Provision(); err != nil {
+		var perr error
+		provision := func() { perr = w.Provision() }
+		if busy {
+			// ... and is in the middle of a CRL update (the first fetch of a distribution point it has just learned of,
+			// started in the background) at the moment the crashed work_dir is provisioned: the origin's answer takes
+			// that long
+			urlC := "http://crl.test/other-instance.crl"
+			done := false
+			w.Net.Routes[urlC] = &world.Behaviour{Label: "slow", Fn: func(req *http.Request, body []byte) (int, []byte, error) {
+				if !done {
+					done = true
+					provision()
+				}
+				return 200, world.SimpleCRL(c.p.CA, 1, 900).DER(), nil
+			}}
+			lc := world.Leaf(c.p.CA, bi(902), []string{urlC}, nil)
+			other.Lookup(lc, world.Chain(lc, c.p.CA, c.p.Root))
+			vsched.Drain()
+			if !done {
+				vsched.EffectHook = nil
+				r.ProvisionErr = "harness: the other instance never fetched its CRL"
+				return
+			}
+		} else {
+			provision()
+		}
+		if perr != nil {
 			vsched.EffectHook = nil
-			r.ProvisionErr = err.Error()
+			r.ProvisionErr = perr.Error()
 			return
 		}
 		vsched.Drain()
@@ -203,6 +248,14 @@ func c12RestartChild(dir string, dieAt int) int {
 			out = append(out, w.Lookup(pr, world.Chain(pr, c.p.CA, c.p.Root)).String())
 		}
 		r.Vector = strings.Join(out, ",")
+		if !strings.Contains(r.Vector, "ERR") {
+			for i := 0; i < c12BigExtra; i++ {
+				pr := world.Leaf(c.p.CA, bi(c12BigBase+int64(i)), []string{urlA}, nil)
+				if w.Lookup(pr, world.Chain(pr, c.p.CA, c.p.Root)).Revoked {
+					r.BigRevoked++
+				}
+			}
+		}
 		w.Chk.Cleanup()
 	})
 	if res.Verdict != vsched.OK {
@@ -231,26 +284,28 @@ func RunC12(tier string, args []string) int {
 		if len(args) > 2 {
 			dieAt, _ = strconv.Atoi(args[2])
 		}
-		return c12RestartChild(args[1], dieAt)
+		return c12RestartChild(args[1], dieAt, len(args) > 3 && args[3] == "busy")
 	}
 	chk := fw.NewCheck("C12", tier, "fault_enumeration")
 	chk.Assumptions = []string{
 		"crash model = process death (SIGKILL of a child process at the effect point): every completed write is in the image, nothing unsynced is dropped (the property speaks of the process dying, not of power loss)",
 		"crash points = every call of the os / leveldb shims made by the history (create temp, open for write, each Put/Get/Has, close, mkdir, rename, removeall, remove, open database) counted once before the effect and, for rename / removeall, once more after it",
-		"restart = second child process: fresh validator over the crashed work_dir, same configuration, origin down, crl_cdp_strict on",
+		"restart = second child process: fresh validator over the crashed work_dir, same configuration, origin down, crl_cdp_strict on; the process hosts another validator instance with its own work_dir, provisioned first - idle, and (second restart of the same image) in the middle of a CRL update",
 	}
 	c := newC12Cast()
-	hists := []string{"first-load-accepted", "first-load-rejected", "refresh-accepted", "refresh-rejected"}
+	hists := []string{"first-load-accepted", "first-load-rejected", "refresh-accepted", "refresh-rejected", "first-load-accepted-1100-entries"}
 	if tier == "thorough" {
-		hists = []string{"first-load-accepted", "first-load-rejected", "first-load-truncated", "refresh-accepted", "refresh-rejected", "refresh-fetch-failure", "two-refreshes", "refresh-rejected-then-accepted", "second-location"}
+		hists = []string{"first-load-accepted", "first-load-accepted-1100-entries", "first-load-rejected", "first-load-truncated", "refresh-accepted", "refresh-rejected", "refresh-fetch-failure", "two-refreshes", "refresh-rejected-then-accepted", "second-location"}
 	}
 	// second level: the restarted process dies as well, at every effect point of its Provision (startup sweep, opening
 	// the stores), and a third process restarts over that image.
-	doubleCrash := func(h string) bool { return true }
+	// (not for the 1100-entry history: its more than a thousand crash points differ from the small history's only in
+	// how much of the list has been written, the startup after them goes through the same steps)
+	doubleCrash := func(h string) bool { return h != "first-load-accepted-1100-entries" }
 	type job struct {
 		hist string
 		k    int
-		j    int // 0: single crash; > 0: the restart dies at its j-th startup effect point
+		j    int // 0: single crash; > 0: the restart dies at its j-th startup effect point; -1: single crash, restart while the other instance is busy
 	}
 	var jobs []job
 	points := map[string]int{}
@@ -322,6 +377,25 @@ func RunC12(tier string, args []string) int {
 				return
 			}
 			idsImage, _, _ := ListDir(dir)
+			// the same image restarted while the other validator instance of the process is busy updating
+			if j.hist != "first-load-accepted-1100-entries" || j.k%16 == 0 {
+				busyDir := dir + ".busy"
+				os.RemoveAll(busyDir)
+				if out, err := exec.Command("cp", "-a", dir, busyDir).CombinedOutput(); err != nil {
+					add(result{job: j, err: "cannot copy the crash image: " + string(out)})
+					return
+				}
+				out, err := c12Exec("restart", busyDir, "0", "busy")
+				os.RemoveAll(busyDir)
+				jb := job{j.hist, j.k, -1}
+				if rb, ok := parse(out); err == nil && ok {
+					rb.IDsBefore = idsImage
+					add(result{job: jb, r: rb})
+				} else {
+					add(result{job: jb, err: fmt.Sprintf("restart child (other instance busy) failed: %v %s", err, out)})
+					return
+				}
+			}
 			image := dir + ".image"
 			if doubleCrash(j.hist) {
 				os.RemoveAll(image)
@@ -396,11 +470,15 @@ func RunC12(tier string, args []string) int {
 		}
 		return x.j < y.j
 	})
-	double := 0
+	double, busyRuns := 0, 0
 	for _, res := range results {
 		j := res.job
 		rep := map[string]interface{}{"driver": "C12", "history": j.hist, "crash_point": j.k, "restart_crash_point": j.j}
 		hname := j.hist
+		if j.j < 0 {
+			busyRuns++
+			j.hist += "+restart-while-other-instance-updates"
+		}
 		if j.j > 0 {
 			// same oracle, one level deeper: the restarted process died at its j-th startup effect point, a third one restarted
 			double++
@@ -442,6 +520,10 @@ func RunC12(tier string, args []string) int {
 					fmt.Sprintf("after a crash at effect point %d of history %s the restarted validator treats the location as loaded with verdicts [%s] for serials %v; allowed: not loaded, or %v", j.k, j.hist, r.Vector, c12Serials, al), rep)
 			}
 		}
+		if hname == "first-load-accepted-1100-entries" && r.Vector != allERR && r.BigRevoked != c12BigExtra {
+			chk.Violation("C12|loaded-data-not-a-complete-accepted-crl|"+j.hist,
+				fmt.Sprintf("after a crash at effect point %d of history %s the restarted validator treats the location as loaded, but only %d of the list's %d further entries are answered 'revoked'", j.k, j.hist, r.BigRevoked, c12BigExtra), rep)
+		}
 		if len(r.OtherAfter) > 0 {
 			chk.Violation("C12|stray-entries-survive-startup|"+j.hist, fmt.Sprintf("crash at point %d of %s: work_dir entries %v (neither a store directory nor matched by the startup sweep) remain after Provision", j.k, j.hist, r.OtherAfter), rep)
 		}
@@ -467,7 +549,8 @@ func RunC12(tier string, args []string) int {
 	sort.Strings(ps)
 	cov := fw.Coverage{
 		"evaluations":                            len(results),
-		"single_crash_evaluations":               len(results) - double,
+		"single_crash_evaluations":               len(results) - double - busyRuns,
+		"restart_while_other_instance_updates":   busyRuns,
 		"double_crash_evaluations":               double,
 		"crash_points_beyond_the_end_of_the_run": beyondEnd,
 		"distinct_nontrivial":                    nontrivial,
